@@ -220,6 +220,40 @@ pub fn tree_flat(s: &mut Sink, count: u64, seed: u64) {
     }
 }
 
+/// bursts: a hash request, then exactly b upserts (re-upserts and overwrites of a few keys), then a hash
+/// request, for burst sizes around powers of two (8-bit and 16-bit counters wrap there)
+pub fn tree_burst(s: &mut Sink, big: bool) {
+    let mut sizes: Vec<usize> = vec![1, 2, 3, 127, 128, 129, 254, 255, 256, 257, 258, 511, 512, 513, 767, 768, 1023, 1024, 1025];
+    if big {
+        sizes.extend([65534, 65535, 65536, 65537, 131072]);
+    }
+    for (si, b) in sizes.iter().enumerate() {
+        for variant in 0..3usize {
+            if !s.mine() {
+                s.skip();
+                continue;
+            }
+            let n = 3 + variant; // number of keys
+            let levels: Vec<u32> = (0..n).map(|i| ((i + si) % 3) as u32).collect();
+            let ks = keys_str(&levels, 16, 16);
+            let mut ops: Vec<String> = vec![];
+            if variant != 1 {
+                ops.push("h".into()); // hash of the empty tree first
+            }
+            ops.push("u0:01".into());
+            ops.push("h".into());
+            for j in 0..*b {
+                ops.push(format!("u{}:{}", (j * 7 + variant) % n, VALS[(j / n) % 3]));
+            }
+            ops.push("h".into());
+            ops.push(format!("u{}:03", n - 1));
+            ops.push("h".into());
+            let tag = if *b > 2000 { "Tf" } else { "T" };
+            s.emit(&format!("{} 16 16 {} {}", tag, ks, ops.join(",")));
+        }
+    }
+}
+
 fn rand_bytes(r: &mut Rng, n: usize) -> Vec<u8> {
     (0..n).map(|_| r.below(256) as u8).collect()
 }
@@ -820,6 +854,7 @@ pub fn sync_rand(s: &mut Sink, count: u64, seed: u64, maxkeys: usize) {
             }
         }
         let merge = if cr.chance(3, 4) { "max" } else { "pw" };
-        s.emit(&format!("Y {} {} {} {} {}", t.base, merge, nrep, t.keys, l.join(",")));
+        let tag = if t.nkeys > 40 { "Yf" } else { "Y" };
+        s.emit(&format!("{} {} {} {} {} {}", tag, t.base, merge, nrep, t.keys, l.join(",")));
     }
 }
